@@ -153,6 +153,57 @@ def rule_lwpos_a64(ctx, R):
         raise AnalysisBroken('LW-POS: only %d marking paths in the A64 handlers' % n)
 
 
+def rule_lwexec_a64(ctx, R):
+    """[LW-POS-EXEC] the value of every mark, decided by executing the handler with a concrete code position"""
+    from domains import KB
+    from rules.a64sem import Exec
+    F, hs = jit.handlers(ctx, 'a64')
+    R.rule('LW-POS-EXEC', 'A64: every value a handler stores into reg_changed_offset - for the destination, for both registers of a swap, for all eight registers after a branch, directly or through a helper - is the code position '
+           'reached after the last word the handler emitted (a smaller value makes the next CBRANCH on that register jump into or before the instruction: part of it, or a whole earlier branch, is executed again); '
+           'decided by known-bits execution of the handler at a concrete position for every instruction', min_instances=20)
+    cls = 'randomx::JitCompilerA64'
+    n = 0
+    skipped = set()
+    for name, h in sorted(hs.items()):
+        f = h.f
+        touches = any(x['k'] == 'Mem' and x.get('m') == 'reg_changed_offset' for x in walk(f['body'])) or \
+            any((c.get('fn') or '').startswith(cls + '::') and F.has_func(c['fn']) and any(y['k'] == 'Mem' and y.get('m') == 'reg_changed_offset' for y in walk(F.func(c['fn'])['body'])) for c in calls(f['body']))
+        if not touches:
+            continue
+        ip = f['params'][0]
+        for d, s_, imm, mod in ((3, 1, 0x100, 0), (5, 5, 0x7FFFFFF8, 1), (0, 7, 0xFFFFFFFF, 0xE3)):
+            ex = Exec(F, cls, None, {}, 64)
+            pname = ip['name']
+            env0 = {'%s.dst' % pname: KB.const(8, d), '%s.src' % pname: KB.const(8, s_), '%s.mod' % pname: KB.const(8, mod), 'this->flags': KB.const(32, 0)}
+            for i in range(8):
+                env0['this->reg_changed_offset[%d]' % i] = KB.const(32, 0x800)
+            ov = {'randomx::Instruction::getImm32': KB.const(32, imm), 'randomx::Instruction::getModShift': KB.const(32, (mod >> 2) & 3),
+                  'randomx::Instruction::getModMem': KB.const(32, mod & 3), 'randomx::Instruction::getModCond': KB.const(32, mod >> 4)}
+            P0 = 0x1000
+            try:
+                ex.run_with(f, [None, KB.const(32, P0)], env0, ov)
+            except AnalysisBroken as e:
+                skipped.add('%s (%s)' % (name, str(e)[:70]))
+                break
+            fin = ex.final_env.get(f['params'][1]['id'])
+            end = fin.value() if fin is not None else None
+            if end is None or end != P0 + 4 * len(ex.words):
+                R.violation('a64 %s dst=%d src=%d: position after the handler' % (name, d, s_), '%s:%d' % (f['file'], f['line']), expected='%#x (%d words emitted)' % (P0 + 4 * len(ex.words), len(ex.words)), found=hex(end) if end is not None else 'not constant')
+                continue
+            marks = [(k_, v_.value() if hasattr(v_, 'value') else None) for k_, v_ in ex.final_env.items() if isinstance(k_, str) and 'reg_changed_offset[' in k_ and not re.match(r'^this->reg_changed_offset\[\d\]$', k_)]
+            marks += [('all registers (%s)' % wh, v_) for v_, wh in getattr(ex, 'mark_all', [])]
+            if not marks:
+                continue
+            n += 1
+            bad = [(k_, v_) for k_, v_ in marks if v_ != end]
+            R.check(not bad, 'a64 %s dst=%d src=%d imm32=%#x' % (name, d, s_, imm), '%s:%d' % (f['file'], f['line']), expected='every mark = %#x, the position after the %d emitted words' % (end, len(ex.words)),
+                    found='; '.join('%s = %s' % (k_, hex(v_) if v_ is not None else 'not constant') for k_, v_ in bad) or 'all marks at the end')
+    if skipped:
+        R.note('LW-POS-EXEC does not execute: ' + '; '.join(sorted(skipped)) + ' (their marks are LW-VALUE / RCP-NOOP obligations)')
+    if n < 20:
+        raise AnalysisBroken('LW-POS-EXEC: only %d marking executions' % n)
+
+
 def rule_v2sym_a64(ctx, R):
     F, hs = jit.handlers(ctx, 'a64')
     R.rule('V2-SYM', 'the A64 back-end patches a persistent code buffer in place: every v1/v2 gate in generateProgram / generateProgramLight has both arms and both arms write the same patch location (otherwise code of the other version survives a v2 -> v1 switch)', min_instances=4)
